@@ -14,6 +14,7 @@ import Driver.Ops.Lifecycle
 import Driver.Ops.ConstraintCheck
 import Driver.Ops.PerL1
 import Driver.Ops.OpenType
+import Driver.Ops.Application
 open Driver
 
 def handlers : List Handler := [
@@ -30,7 +31,8 @@ def handlers : List Handler := [
   Driver.Ops.Lifecycle.run,
   Driver.Ops.ConstraintCheck.run,
   Driver.Ops.PerL1.run,
-  Driver.Ops.OpenType.run
+  Driver.Ops.OpenType.run,
+  Driver.Ops.Application.run
 ]
 
 def step (line : String) : String :=
